@@ -6,6 +6,21 @@
 #define private public   // white-box write of `count` for the op `setcount`
 #include <nstd/Crypto/Sha256.hpp>
 #undef private
+#include <nstd/Debug.hpp>
+#include <stdarg.h>
+
+// a Sha256.cpp that states its invariants with ASSERT refers to Debug::printf; src/Debug.cpp would drag in Process/String,
+// so the harness supplies the function: a failed library assertion is printed into the observation line and is a fault
+int Debug::printf(const char* format, ...)
+{
+  va_list ap;
+  va_start(ap, format);
+  fputs("FAULT assertion: ", stdout);
+  vfprintf(stdout, format, ap);
+  va_end(ap);
+  fflush(stdout);
+  return 1;
+}
 
 // the object lives in an exactly sized heap block: `buffer` is its last member, so a write past
 // buffer[63] (or before state[0]) lands in an ASan redzone
